@@ -879,6 +879,30 @@ Proof.
   apply site_lookup_upload_confined; auto.
 Qed.
 
+(* delete-index: expansion, then per-name validation *)
+Theorem delete_index_confined D H L expanded p : is_dir D -> good_host H ->
+  In p (delete_index_removed D H L expanded) -> confined D p = true.
+Proof.
+  intros HD HH Hin. unfold delete_index_removed in Hin.
+  apply in_map_iff in Hin. destruct Hin as (n & <- & Hn).
+  apply filter_In in Hn. destruct Hn as [_ Hn]. apply andb_true_iff in Hn. destruct Hn as [Hok _].
+  apply site_active_dir_guarded; auto. apply safe_no_slash. exact Hok.
+Qed.
+
+Lemma register_index_safe L name : Forall (fun n => index_ok n = true) L ->
+  Forall (fun n => index_ok n = true) (register_index L name).
+Proof.
+  intros HL. unfold register_index. destruct (index_ok name) eqn:E; auto.
+  destruct (mem name L); auto. apply Forall_app. split; auto.
+Qed.
+
+Theorem register_all_safe names : forall L, Forall (fun n => index_ok n = true) L ->
+  Forall (fun n => index_ok n = true) (fold_left register_index names L).
+Proof.
+  induction names as [|n names IH]; intros L HL; cbn [fold_left]; auto.
+  apply IH. apply register_index_safe. exact HL.
+Qed.
+
 (* the validator rejects every witness of the pre-fix refutations, and accepts ordinary names *)
 Example validator_rejects_witnesses :
   safe_component w_up3 = false /\ safe_component w_up2csv = false /\ safe_component w_up6 = false /\
@@ -896,6 +920,18 @@ Theorem inputlookup_cursor0_refuted : exists D o f p,
 Proof.
   exists wD, (mk_il 1 1000000000 false false false true), w_up2csv, (site_inputlookup wD w_up2csv).
   split; [exact wD_is_dir|]. split; [discriminate|]. repeat split; vm_compute; reflexivity.
+Qed.
+
+Definition w_star_v : list N := [42;118].   (* "*v" *)
+Definition w_up3v : list N := [46;46;47;46;46;47;46;46;47;118].   (* "../../../v" *)
+Theorem delete_index_reqonly_refuted : exists D H req L p,
+  is_dir D /\ good_host H /\ index_ok req = true /\
+  delete_index_removed D H L (expand_simple req L) = [] /\
+  In p (delete_index_removed_reqonly D H req L (expand_simple req L)) /\ confined D p = false.
+Proof.
+  exists wD, wH, w_star_v, [w_up3v], (site_active_dir wD wH w_up3v).
+  split; [exact wD_is_dir|]. split; [exact wH_good|]. split; [vm_compute; reflexivity|].
+  split; [vm_compute; reflexivity|]. split; [vm_compute; left; reflexivity|vm_compute; reflexivity].
 Qed.
 
 (* non-vacuity of the guards *)
